@@ -20,7 +20,11 @@ pub struct Part {
     pub thorough: u64,
 }
 fn p(family: &'static str, quick: u64, thorough: u64) -> Part {
-    Part { family, quick, thorough }
+    Part {
+        family,
+        quick,
+        thorough,
+    }
 }
 
 pub struct Plan {
@@ -42,7 +46,18 @@ const BASE_ASSUME: [&str; 3] = [
 
 pub fn plan(prop: &str) -> Option<Plan> {
     let conc = |q: u64, t: u64| -> Vec<Part> {
-        vec![p("K1", q, t), p("K2", q, t), p("K3", q, t), p("K4", q, t), p("K5", q, t), p("K6", q, t), p("K7", q, t), p("K8", q, t), p("KE", q, t)]
+        vec![
+            p("K1", q, t),
+            p("K2", q, t),
+            p("K3", q, t),
+            p("K4", q, t),
+            p("K5", q, t),
+            p("K6", q, t),
+            p("K7", q, t),
+            p("K8", q, t),
+            p("KE", q, t),
+            p("K9", q, t),
+        ]
     };
     let mut assumptions: Vec<&'static str> = BASE_ASSUME.to_vec();
     let (level, parts, rule): (&str, Vec<Part>, &str) = match prop {
@@ -69,19 +84,47 @@ pub fn plan(prop: &str) -> Option<Plan> {
             assumptions.push("strict persistency: every write before the crash point is durable, none after; volatile buffers come back zeroed");
             let mut v = conc(3500, 150_000);
             v.push(p("Q1crash", 15_000, 500_000));
-            ("fault_enumeration", v, "crash fault enumerated at every persistent write (and after every call return) of each explored history / interleaving; histories and interleavings themselves are seeded samples; distinct/non-trivial counted per run as for the sequential and concurrent families (a run is non-trivial if it has at least one persistent write, i.e. at least one mid-history crash point)")
+            (
+                "fault_enumeration",
+                v,
+                "crash fault enumerated at every persistent write (and after every call return) of each explored history / interleaving; histories and interleavings themselves are seeded samples; distinct/non-trivial counted per run as for the sequential and concurrent families (a run is non-trivial if it has at least one persistent write, i.e. at least one mid-history crash point)",
+            )
         }
-        "C06" => ("exploration", vec![p("Q2", 6000, 0), p("Q2dense", 0, 8 * llfree::TREE_FRAMES as u64)], "one run = one (frame count, init mode, classing, slots) configuration driven through init, exhaustion / free-everything and all accounting views; distinct = distinct (frames, mode, slots); every run is non-trivial; schedule: single-thread"),
+        "C06" => (
+            "exploration",
+            vec![
+                p("Q2", 6000, 0),
+                p("Q2dense", 0, 8 * llfree::TREE_FRAMES as u64),
+            ],
+            "one run = one (frame count, init mode, classing, slots) configuration driven through init, exhaustion / free-everything and all accounting views; distinct = distinct (frames, mode, slots); every run is non-trivial; schedule: single-thread",
+        ),
         "C07" => ("exploration", vec![p("Q7", 60_000, 1_500_000)], SEQ_RULE),
-        "C08" => ("exploration", vec![p("Q6", 50_000, 1_500_000), p("QB", 50_000, 500_000)], SEQ_RULE),
-        "C09" => ("exploration", vec![p("Q1open", 100_000, 3_000_000)], SEQ_RULE),
+        "C08" => (
+            "exploration",
+            vec![p("Q6", 50_000, 1_500_000), p("QB", 50_000, 500_000)],
+            SEQ_RULE,
+        ),
+        "C09" => (
+            "exploration",
+            vec![p("Q1open", 100_000, 3_000_000)],
+            SEQ_RULE,
+        ),
         "C10" => {
             let mut v = vec![p("Q9", 25_000, 1_000_000)];
-            v.extend([p("K3", 3000, 200_000), p("K4", 3000, 200_000), p("K5", 3000, 200_000), p("K7", 3000, 200_000)]);
+            v.extend([
+                p("K3", 3000, 200_000),
+                p("K4", 3000, 200_000),
+                p("K5", 3000, 200_000),
+                p("K7", 3000, 200_000),
+            ]);
             ("exploration", v, SEQ_RULE)
         }
         "C11" => ("exploration", vec![p("Q3", 3000, 150_000)], SEQ_RULE),
-        "C12" => ("exploration", vec![p("Q4", 4000, 100_000)], "one run = one structured allocation pattern of a tree built through the lower-level API, then a directed search for every order from a hint in every row; distinct = distinct pattern bitmap; non-trivial = pattern has allocated frames; schedule: single-thread"),
+        "C12" => (
+            "exploration",
+            vec![p("Q4", 4000, 100_000)],
+            "one run = one structured allocation pattern of a tree built through the lower-level API, then a directed search for every order from a hint in every row; distinct = distinct pattern bitmap; non-trivial = pattern has allocated frames; schedule: single-thread",
+        ),
         "C13" => {
             let mut v = conc(2500, 200_000);
             v[7].quick = 25_000;
@@ -90,12 +133,39 @@ pub fn plan(prop: &str) -> Option<Plan> {
             v.push(p("Q1", 8000, 300_000));
             ("exploration", v, CONC_RULE)
         }
-        "C14" => ("exploration", vec![p("Q1", 25_000, 800_000), p("Q5", 12_000, 300_000), p("Q9", 12_000, 300_000)], SEQ_RULE),
-        "C15" => ("exploration", vec![p("Q5", 60_000, 1_500_000), p("K4", 12_000, 600_000)], SEQ_RULE),
-        "C17" => ("exploration", vec![p("Q8", 15_000, 400_000)], "one run = one zone (size, aligned base address, classing) with NvmAlloc, ZoneAlloc and a plain LLFree driven in lock-step by a seeded history, then a cold restart; distinct = distinct (zone, history) hash; schedule: single-thread"),
+        "C14" => (
+            "exploration",
+            vec![
+                p("Q1", 25_000, 800_000),
+                p("Q5", 12_000, 300_000),
+                p("Q9", 12_000, 300_000),
+            ],
+            SEQ_RULE,
+        ),
+        "C15" => (
+            "exploration",
+            vec![
+                p("Q5", 60_000, 1_500_000),
+                p("K4", 12_000, 600_000),
+                p("K9", 12_000, 600_000),
+            ],
+            SEQ_RULE,
+        ),
+        "C17" => (
+            "exploration",
+            vec![p("Q8", 15_000, 400_000)],
+            "one run = one zone (size, aligned base address, classing) with NvmAlloc, ZoneAlloc and a plain LLFree driven in lock-step by a seeded history, then a cold restart; distinct = distinct (zone, history) hash; schedule: single-thread",
+        ),
         "C18" => {
             let mut v = conc(2500, 200_000);
-            v.extend([p("Q1open", 10_000, 500_000), p("Q2", 600, 20_000), p("Q6", 4000, 200_000), p("Q7", 3000, 200_000), p("QB", 3000, 100_000), p("QM", 40_000, 2_000_000)]);
+            v.extend([
+                p("Q1open", 10_000, 500_000),
+                p("Q2", 600, 20_000),
+                p("Q6", 4000, 200_000),
+                p("Q7", 3000, 200_000),
+                p("QB", 3000, 100_000),
+                p("QM", 40_000, 2_000_000),
+            ]);
             assumptions.push("memory oracle of this tier: every metadata buffer is exactly metadata_size bytes and flush against a PROT_NONE guard page (alternating leading / trailing); an out-of-bounds access kills the worker");
             ("exploration", v, CONC_RULE)
         }
@@ -134,12 +204,52 @@ pub fn plan(prop: &str) -> Option<Plan> {
     })
 }
 
+/// Name of the compile-time geometry of this binary (cargo feature of llsim)
+pub fn geometry_name() -> &'static str {
+    if cfg!(feature = "th1") {
+        "th1"
+    } else if cfg!(feature = "th2") {
+        "th2"
+    } else if cfg!(feature = "th8") {
+        "th8"
+    } else if cfg!(feature = "k16") {
+        "k16"
+    } else {
+        "default"
+    }
+}
+
+/// The llsim binary built for another geometry, next to this one (built on demand)
+fn binary_for(geo: &str) -> Option<PathBuf> {
+    let exe = std::env::current_exe().ok()?;
+    let rel = exe.parent()?; // .../release
+    let up = rel.parent()?; // target or target/<geo>
+    let target = if geometry_name() == "default" { up.to_path_buf() } else { up.parent()?.to_path_buf() };
+    let (dir, bin) = if geo == "default" {
+        (target.clone(), target.join("release/llsim"))
+    } else {
+        (target.join(geo), target.join(geo).join("release/llsim"))
+    };
+    if !bin.exists() {
+        let mut c = Command::new("cargo");
+        c.args(["build", "--release", "--offline"]);
+        if geo != "default" {
+            c.args(["--features", geo]);
+        }
+        c.arg("--target-dir").arg(&dir).current_dir(target.parent()?);
+        c.env("CARGO_NET_OFFLINE", "true").stdout(Stdio::null()).stderr(Stdio::null());
+        let _ = c.status();
+    }
+    bin.exists().then_some(bin)
+}
+
 pub fn root() -> PathBuf {
     PathBuf::from(std::env::var("LLSIM_ROOT").unwrap_or_else(|_| "/verif".into()))
 }
 
 fn fam_id(f: &str) -> u64 {
-    f.bytes().fold(7u64, |a, b| a.wrapping_mul(131).wrapping_add(b as u64))
+    f.bytes()
+        .fold(7u64, |a, b| a.wrapping_mul(131).wrapping_add(b as u64))
 }
 
 pub fn run_seed(seed: u64, family: &str, index: u64) -> u64 {
@@ -185,6 +295,8 @@ pub fn worker(args: &[String]) -> i32 {
         let runs = match tier.as_str() {
             "thorough" => part.thorough,
             "geo" => (part.quick * 3).max(part.thorough.min(3000)),
+            // one other geometry next to the default one in the quick tier (C02 C05 C06 C12)
+            "geoq" => (part.quick / 3).max(200).min(part.quick),
             _ => part.quick,
         };
         let mut fam_samples = 0;
@@ -207,7 +319,10 @@ pub fn worker(args: &[String]) -> i32 {
                 let _ = cur.write_at(line.as_bytes(), 0);
             }
             let (mut case, gen_steps) = if evolving {
-                (Case::Conc(evolve.next(index, rs, &crate::case::gen_opts(props))), None)
+                (
+                    Case::Conc(evolve.next(index, rs, &crate::case::gen_opts(props))),
+                    None,
+                )
             } else {
                 Case::generate(part.family, rs, index, props)
             };
@@ -228,7 +343,12 @@ pub fn worker(args: &[String]) -> i32 {
             if out.nontrivial {
                 hashes.push(out.hash);
                 if fam_samples < 1 && shard == 0 && !matches!(out.sample, J::Null) {
-                    samples.push(out.sample.clone().set("run_index", index).set("run_seed", rs));
+                    samples.push(
+                        out.sample
+                            .clone()
+                            .set("run_index", index)
+                            .set("run_seed", rs),
+                    );
                     fam_samples += 1;
                 }
             }
@@ -250,6 +370,7 @@ pub fn worker(args: &[String]) -> i32 {
                         .set("run_index", index)
                         .set("run_seed", rs)
                         .set("verif_seed", seed)
+                        .set("geometry", geometry_name())
                         .set("count", 0u64)
                         .set("case", case.to_json())
                 });
@@ -260,7 +381,9 @@ pub fn worker(args: &[String]) -> i32 {
         if evolving {
             *counters.entry("evolve_fresh_cases".into()).or_default() += evolve.fresh;
             *counters.entry("evolve_mutated_cases".into()).or_default() += evolve.mutated;
-            *counters.entry("evolve_cases_kept_for_new_states".into()).or_default() += evolve.kept;
+            *counters
+                .entry("evolve_cases_kept_for_new_states".into())
+                .or_default() += evolve.kept;
         }
     }
     hashes.sort_unstable();
@@ -280,9 +403,23 @@ pub fn worker(args: &[String]) -> i32 {
         .set("evaluations", evaluations)
         .set("truncated_by_time", truncated)
         .set("wall_s", start.elapsed().as_secs_f64())
-        .set("counters", J::Obj(counters.into_iter().map(|(k, v)| (k, J::from(v))).collect()))
-        .set("per_family", J::Obj(per_family.into_iter().map(|(k, v)| (k, J::from(v))).collect()))
-        .set("foreign", J::Obj(foreign.into_iter().map(|(k, v)| (k, J::from(v))).collect()))
+        .set(
+            "counters",
+            J::Obj(counters.into_iter().map(|(k, v)| (k, J::from(v))).collect()),
+        )
+        .set(
+            "per_family",
+            J::Obj(
+                per_family
+                    .into_iter()
+                    .map(|(k, v)| (k, J::from(v)))
+                    .collect(),
+            ),
+        )
+        .set(
+            "foreign",
+            J::Obj(foreign.into_iter().map(|(k, v)| (k, J::from(v))).collect()),
+        )
         .set("found", J::Arr(found.into_values().collect()))
         .set("samples", J::Arr(samples));
     std::fs::write(outdir.join(format!("w{shard}.json")), res.to_string()).unwrap();
@@ -308,9 +445,9 @@ impl Known {
     }
     /// entry with status "known" matching this property + signature
     pub fn matches(&self, prop: &str, sig: &str) -> Option<&J> {
-        self.entries
-            .iter()
-            .find(|e| e.gs("status") == "known" && e.gs("property") == prop && e.gs("signature") == sig)
+        self.entries.iter().find(|e| {
+            e.gs("status") == "known" && e.gs("property") == prop && e.gs("signature") == sig
+        })
     }
 }
 
@@ -326,11 +463,23 @@ pub fn replay_here(file: &Path) -> Result<(bool, Vec<String>), String> {
     let mut case = Case::from_json(j.get("case").ok_or("no case")?).ok_or("bad case")?;
     let ctx = Ctx::new();
     let out = case.run(&ctx, props_for(&prop), None);
-    let sigs: Vec<String> = out.violations.iter().map(|v| format!("{}:{}", v.prop, v.sig)).collect();
+    let sigs: Vec<String> = out
+        .violations
+        .iter()
+        .map(|v| format!("{}:{}", v.prop, v.sig))
+        .collect();
     for v in &out.violations {
-        println!("observed: property={} signature={} :: {}", v.prop, v.sig, v.detail);
+        println!(
+            "observed: property={} signature={} :: {}",
+            v.prop, v.sig, v.detail
+        );
     }
-    Ok((out.violations.iter().any(|v| v.prop == prop && v.sig == sig), sigs))
+    Ok((
+        out.violations
+            .iter()
+            .any(|v| v.prop == prop && v.sig == sig),
+        sigs,
+    ))
 }
 
 pub fn replay_cmd(file: &Path) -> i32 {
@@ -345,6 +494,29 @@ pub fn replay_cmd(file: &Path) -> i32 {
         eprintln!("cannot parse {file:?}");
         return 2;
     };
+    // a case recorded by the build for another compile-time geometry: hand over to that build
+    let geo = match j.gs("geometry") {
+        "" => "default",
+        g => g,
+    };
+    if geo != geometry_name() && j.gs("expect") != "command" {
+        return match binary_for(geo) {
+            Some(bin) => {
+                println!("geometry {geo}: replaying with {}", bin.display());
+                match Command::new(bin).arg("replay").arg(file).status() {
+                    Ok(st) => st.code().unwrap_or(2),
+                    Err(e) => {
+                        eprintln!("{e}");
+                        2
+                    }
+                }
+            }
+            None => {
+                eprintln!("cannot build llsim for geometry {geo}");
+                2
+            }
+        };
+    }
     if j.get("case").is_some_and(|c| c.gs("kind") == "trace") {
         return crate::trace::replay_trace(&j, file);
     }
@@ -355,9 +527,17 @@ pub fn replay_cmd(file: &Path) -> i32 {
         let out = Command::new("sh").arg("-c").arg(cmd).output();
         return match out {
             Ok(o) => {
-                let txt = format!("{}{}", String::from_utf8_lossy(&o.stdout), String::from_utf8_lossy(&o.stderr));
+                let txt = format!(
+                    "{}{}",
+                    String::from_utf8_lossy(&o.stdout),
+                    String::from_utf8_lossy(&o.stderr)
+                );
                 if txt.contains("Undefined Behavior") || txt.contains("ERROR: AddressSanitizer") {
-                    println!("VIOLATION property={} replay={}", j.gs("property"), file.display());
+                    println!(
+                        "VIOLATION property={} replay={}",
+                        j.gs("property"),
+                        file.display()
+                    );
                     println!("reproduced: the memory checker reported an error again");
                     1
                 } else {
@@ -380,7 +560,11 @@ pub fn replay_cmd(file: &Path) -> i32 {
             .status();
         return match st {
             Ok(st) if st.code().is_none() => {
-                println!("VIOLATION property={} replay={}", j.gs("property"), file.display());
+                println!(
+                    "VIOLATION property={} replay={}",
+                    j.gs("property"),
+                    file.display()
+                );
                 println!("reproduced: the run was killed by a signal ({st})");
                 1
             }
@@ -396,12 +580,20 @@ pub fn replay_cmd(file: &Path) -> i32 {
     }
     match replay_here(file) {
         Ok((true, _)) => {
-            println!("VIOLATION property={} replay={}", j.gs("property"), file.display());
+            println!(
+                "VIOLATION property={} replay={}",
+                j.gs("property"),
+                file.display()
+            );
             println!("reproduced: signature {}", j.gs("signature"));
             1
         }
         Ok((false, sigs)) => {
-            println!("not reproduced: expected {}:{}, observed {sigs:?}", j.gs("property"), j.gs("signature"));
+            println!(
+                "not reproduced: expected {}:{}, observed {sigs:?}",
+                j.gs("property"),
+                j.gs("signature")
+            );
             0
         }
         Err(e) => {
@@ -412,7 +604,10 @@ pub fn replay_cmd(file: &Path) -> i32 {
 }
 
 fn confirm_in_fresh_process(file: &Path) -> bool {
-    let out = Command::new(std::env::current_exe().unwrap()).arg("replay").arg(file).output();
+    let out = Command::new(std::env::current_exe().unwrap())
+        .arg("replay")
+        .arg(file)
+        .output();
     matches!(out, Ok(o) if o.status.code() == Some(1))
 }
 
@@ -421,13 +616,23 @@ fn confirm_in_fresh_process(file: &Path) -> bool {
 
 fn read_bin(path: &Path) -> Vec<u64> {
     std::fs::read(path)
-        .map(|b| b.chunks_exact(8).map(|c| u64::from_le_bytes(c.try_into().unwrap())).collect())
+        .map(|b| {
+            b.chunks_exact(8)
+                .map(|c| u64::from_le_bytes(c.try_into().unwrap()))
+                .collect()
+        })
         .unwrap_or_default()
 }
 
 fn sanitize(s: &str) -> String {
     s.chars()
-        .map(|c| if c.is_ascii_alphanumeric() || c == '-' { c } else { '_' })
+        .map(|c| {
+            if c.is_ascii_alphanumeric() || c == '-' {
+                c
+            } else {
+                '_'
+            }
+        })
         .take(60)
         .collect()
 }
@@ -437,26 +642,42 @@ pub fn check(prop: &str, tier: &str) -> i32 {
         eprintln!("no check for property {prop}");
         return 2;
     };
-    let seed: u64 = std::env::var("VERIF_SEED").ok().and_then(|s| s.parse().ok()).unwrap_or(DEFAULT_SEED);
-    let nshards: u64 = std::env::var("LLSIM_WORKERS").ok().and_then(|s| s.parse().ok()).unwrap_or(16);
+    let seed: u64 = std::env::var("VERIF_SEED")
+        .ok()
+        .and_then(|s| s.parse().ok())
+        .unwrap_or(DEFAULT_SEED);
+    let nshards: u64 = std::env::var("LLSIM_WORKERS")
+        .ok()
+        .and_then(|s| s.parse().ok())
+        .unwrap_or(16);
     let time_cap: f64 = std::env::var("LLSIM_TIME_CAP")
         .ok()
         .and_then(|s| s.parse().ok())
         .unwrap_or(match tier {
             "thorough" => 1200.0,
             "geo" => 240.0,
+            "geoq" => 40.0,
             _ => 75.0,
         });
     let start = Instant::now();
     println!("llsim check {prop} tier={tier} VERIF_SEED={seed} workers={nshards}");
-    let tmp = root().join("sim/target/tmp").join(format!("{prop}-{tier}-{}", std::process::id()));
+    let tmp = root()
+        .join("sim/target/tmp")
+        .join(format!("{prop}-{tier}-{}", std::process::id()));
     let _ = std::fs::remove_dir_all(&tmp);
     std::fs::create_dir_all(&tmp).unwrap();
     let exe = std::env::current_exe().unwrap();
     let children: Vec<_> = (0..nshards)
         .map(|s| {
             Command::new(&exe)
-                .args(["worker", prop, tier, &seed.to_string(), &s.to_string(), &nshards.to_string()])
+                .args([
+                    "worker",
+                    prop,
+                    tier,
+                    &seed.to_string(),
+                    &s.to_string(),
+                    &nshards.to_string(),
+                ])
                 .arg(&tmp)
                 .arg(time_cap.to_string())
                 .stdout(Stdio::null())
@@ -555,22 +776,37 @@ pub fn check(prop: &str, tier: &str) -> i32 {
     let ctx = Ctx::new();
     // worker deaths by signal (report a few, the rest are the same story)
     if signal_cases.len() > 3 {
-        println!("  {} workers were killed by a signal; reporting the first 3", signal_cases.len());
+        println!(
+            "  {} workers were killed by a signal; reporting the first 3",
+            signal_cases.len()
+        );
     }
     for sc in signal_cases.iter().take(3) {
         let fam = sc.gs("family").to_string();
-        let (case, _) = Case::generate(&fam, sc.gu("run_seed"), sc.gu("run_index"), props_for(prop));
+        let (case, _) =
+            Case::generate(&fam, sc.gu("run_seed"), sc.gu("run_index"), props_for(prop));
         let is_mem = prop == "C18";
-        let file = replay_dir.join(format!("{prop}-signal-{}-{}.json", sanitize(&fam), sc.gu("run_index")));
+        let file = replay_dir.join(format!(
+            "{prop}-signal-{}-{}.json",
+            sanitize(&fam),
+            sc.gu("run_index")
+        ));
         let rec = J::obj()
             .set("property", prop)
             .set("signature", "killed-by-signal")
             .set("expect", "signal")
-            .set("detail", format!("the worker executing this run was killed: {}", sc.gs("status")))
+            .set(
+                "detail",
+                format!(
+                    "the worker executing this run was killed: {}",
+                    sc.gs("status")
+                ),
+            )
             .set("family", fam.clone())
             .set("run_index", sc.gu("run_index"))
             .set("run_seed", sc.gu("run_seed"))
             .set("verif_seed", seed)
+            .set("geometry", geometry_name())
             .set("case", case.to_json());
         std::fs::write(&file, rec.to_pretty()).unwrap();
         if is_mem || matches!(prop, "C03" | "C09" | "C21") {
@@ -578,9 +814,15 @@ pub fn check(prop: &str, tier: &str) -> i32 {
                 known_hit.insert(format!("KNOWN-FINDING: property={prop} {}", k.gs("what")));
             } else if confirm_in_fresh_process(&file) {
                 violations += 1;
-                lines.push(format!("VIOLATION property={prop} replay={}", file.display()));
+                lines.push(format!(
+                    "VIOLATION property={prop} replay={}",
+                    file.display()
+                ));
             } else {
-                harness_errors.push(format!("worker death in {fam} run {} did not reproduce", sc.gu("run_index")));
+                harness_errors.push(format!(
+                    "worker death in {fam} run {} did not reproduce",
+                    sc.gu("run_index")
+                ));
             }
         } else {
             harness_errors.push(format!(
@@ -611,7 +853,12 @@ pub fn check(prop: &str, tier: &str) -> i32 {
         let file = replay_dir.join(format!("{name}.json"));
         std::fs::write(&file, f.to_pretty()).unwrap();
         if !confirm_in_fresh_process(&file) {
-            harness_errors.push(format!("violation {key} (run {} of {}) did not reproduce from {}", f.gu("run_index"), f.gs("family"), file.display()));
+            harness_errors.push(format!(
+                "violation {key} (run {} of {}) did not reproduce from {}",
+                f.gu("run_index"),
+                f.gs("family"),
+                file.display()
+            ));
             continue;
         }
         let mut final_file = file.clone();
@@ -621,7 +868,11 @@ pub fn check(prop: &str, tier: &str) -> i32 {
                 let (small, tries) = minimise(&case, &ctx, props_for(prop), &vprop, &sig, 1500);
                 let mut small2 = small.clone();
                 let out = small2.run(&ctx, props_for(prop), None);
-                if let Some(v) = out.violations.iter().find(|v| v.prop == vprop && v.sig == sig) {
+                if let Some(v) = out
+                    .violations
+                    .iter()
+                    .find(|v| v.prop == vprop && v.sig == sig)
+                {
                     small2.freeze();
                     let min_file = replay_dir.join(format!("{name}.min.json"));
                     let rec = f
@@ -639,9 +890,21 @@ pub fn check(prop: &str, tier: &str) -> i32 {
             }
         }
         violations += 1;
-        lines.push(format!("VIOLATION property={vprop} replay={}", final_file.display()));
-        println!("  {key}: {} (seen in {} runs)", f.gs("detail"), f.gu("count"));
-        reported.push(J::obj().set("signature", sig).set("runs", f.gu("count")).set("replay", final_file.display().to_string()));
+        lines.push(format!(
+            "VIOLATION property={vprop} replay={}",
+            final_file.display()
+        ));
+        println!(
+            "  {key}: {} (seen in {} runs)",
+            f.gs("detail"),
+            f.gu("count")
+        );
+        reported.push(
+            J::obj()
+                .set("signature", sig)
+                .set("runs", f.gu("count"))
+                .set("replay", final_file.display().to_string()),
+        );
     }
     for l in &known_hit {
         println!("{l}");
@@ -699,7 +962,10 @@ pub fn check(prop: &str, tier: &str) -> i32 {
         .set("seed", seed)
         .set("level", plan.level)
         .set("coverage", coverage)
-        .set("assumptions", J::Arr(plan.assumptions.iter().map(|s| J::from(*s)).collect()))
+        .set(
+            "assumptions",
+            J::Arr(plan.assumptions.iter().map(|s| J::from(*s)).collect()),
+        )
         .set("wall_s", wall)
         .set("violations", violations);
     let evdir = root().join("evidence");
@@ -707,14 +973,39 @@ pub fn check(prop: &str, tier: &str) -> i32 {
     let evfile = evdir.join(format!("{prop}.json"));
     if let Ok(geo) = std::env::var("LLSIM_GEOMETRY") {
         // an additional geometry build of the thorough tier: merge into the existing evidence
-        let mut base = std::fs::read_to_string(&evfile).ok().and_then(|s| J::parse(&s).ok()).unwrap_or(ev.clone());
+        let mut base = std::fs::read_to_string(&evfile)
+            .ok()
+            .and_then(|s| J::parse(&s).ok())
+            .unwrap_or(ev.clone());
         let sub = J::obj()
-            .set("geometry", format!("{geo}: TREE_HUGE={} HUGE_ORDER={} TREE_FRAMES={}", llfree::TREE_HUGE, llfree::HUGE_ORDER, llfree::TREE_FRAMES))
-            .set("evaluations", ev.get("coverage").map(|c| c.gu("evaluations")).unwrap_or(0))
-            .set("distinct_nontrivial", ev.get("coverage").map(|c| c.gu("distinct_nontrivial")).unwrap_or(0))
+            .set(
+                "geometry",
+                format!(
+                    "{geo}: TREE_HUGE={} HUGE_ORDER={} TREE_FRAMES={}",
+                    llfree::TREE_HUGE,
+                    llfree::HUGE_ORDER,
+                    llfree::TREE_FRAMES
+                ),
+            )
+            .set(
+                "evaluations",
+                ev.get("coverage").map(|c| c.gu("evaluations")).unwrap_or(0),
+            )
+            .set(
+                "distinct_nontrivial",
+                ev.get("coverage")
+                    .map(|c| c.gu("distinct_nontrivial"))
+                    .unwrap_or(0),
+            )
             .set("violations", violations)
             .set("wall_s", wall)
-            .set("faults_fired", ev.get("coverage").and_then(|c| c.get("faults_fired")).cloned().unwrap_or(J::Null));
+            .set(
+                "faults_fired",
+                ev.get("coverage")
+                    .and_then(|c| c.get("faults_fired"))
+                    .cloned()
+                    .unwrap_or(J::Null),
+            );
         let total_v = base.gu("violations") + violations;
         let total_w = base.get("wall_s").and_then(J::f).unwrap_or(0.0) + wall;
         if let J::Obj(m) = &mut base {
